@@ -12,7 +12,7 @@ ENUM_VALUE_NAMES = ["A", "B", "C", "D", "RED", "a"]
 DEFAULT_KNOBS = dict(
     max_objects=5, max_interfaces=2, max_unions=2, max_enums=2, max_inputs=3, max_custom_scalars=2,
     max_fields=5, max_args=3, mutation_pct=35, subscription_pct=0, default_impl_pct=30,
-    wrap_depth=3, arg_pct=45, root_default_impl=False,
+    wrap_depth=3, arg_pct=45, root_default_impl=False, lag_pct=0,
 )
 
 
@@ -178,6 +178,25 @@ def gen_schema(tape, knobs=None, stream="schema"):
         for fname in t.shuffle(FIELD_NAMES)[: t.rint(1, 3)]:
             sub.fields[fname] = gen_field(fname, root=True)
             sub.fields[fname].impl = "resolver"
+    if k["lag_pct"]:
+        # a pass-through directive whose hooks suspend: puts scheduler points inside argument,
+        # input-object and variable coercion (where the engine gathers)
+        from simv.model.schema import DirUse, DirectiveDef
+        used = False
+        for td in s.types.values():
+            if td.kind == "OBJECT":
+                for f in td.fields.values():
+                    for a in f.args.values():
+                        if t.chance(k["lag_pct"]):
+                            a.directives.append(DirUse("lag"))
+                            used = True
+            elif td.kind == "INPUT_OBJECT":
+                for a in td.fields.values():
+                    if t.chance(k["lag_pct"]):
+                        a.directives.append(DirUse("lag"))
+                        used = True
+        if used:
+            s.directives["lag"] = DirectiveDef("lag", ["ARGUMENT_DEFINITION", "INPUT_FIELD_DEFINITION"])
     return s
 
 
